@@ -9,7 +9,8 @@ compared with the monitor's own record:
   * every data token a step put on a port has a persistent id, a row, the row of the right port/tag;
   * its dependee set in `provenance` equals the set expected from what the step *consumed*
     (Port.get wrapper) by the per-family rules of vf.models.c07_provenance (tag group for
-    transformers / conditionals / schedule / execute + job token, list token for scatter, size token
+    transformers / conditionals / execute + job token, tag group + the tokens of ALL connector ports
+    (one per alternative target of the binding) for schedule, list token for scatter, size token
     + all elements for gather, the combined tokens for dot / cartesian / residual / loop combinators,
     the iterations of the prefix for the loop output step, nothing for deploy);
   * every provenance row refers to existing tokens, dependee id < depender id, the relation is acyclic
@@ -46,7 +47,8 @@ def plan(tier):
         "timeout_s": 600 if q else 3000,
         "min_nontrivial": 60 if q else 1000,
         "required_counters": ["dependee_sets_compared", "kahn_runs", "provenance_rows", "family_fn", "family_scatter",
-                              "family_gather", "family_execute", "family_schedule", "family_dot", "family_cond"],
+                              "family_gather", "family_execute", "family_schedule", "family_dot", "family_cond",
+                              "schedule_multi_target_tokens"],
         "rule": "random failure-free programs (classes plain and side of the C04 generator), default order + 1 (quick) / 3 "
                 "(thorough) perturbation seeds; one case = (program, seed); non-trivial when >= 5 dependee sets were "
                 "compared in the run; distinct = distinct (program hash, seed).",
@@ -107,10 +109,12 @@ def run_shard(sh: Shard) -> None:
     ops = collections.Counter()
     rows_hist = collections.Counter()
     nprog = 0
+    crafted = [dict(p, crafted=n) for n, p in sorted(G.CRAFTED.items()) if not p.get("fail")] if sh.shard == 0 else []
     # under heavy machine load the imports alone can eat the soft budget: always run a minimum of programs
     while not sh.out_of_budget() or nprog < sh.pick(5, 12):
         cls = "plain" if rng.random() < 0.85 else "side"
-        prog = G.gen_program(rng, cls=cls, max_ops=sh.pick(10, 22), max_depth=sh.pick(4, 5), max_tags=sh.pick(48, 120))
+        prog = crafted.pop() if crafted else G.gen_program(rng, cls=cls, max_ops=sh.pick(10, 22),
+                                                            max_depth=sh.pick(4, 5), max_tags=sh.pick(48, 120))
         nprog += 1
         for k, v in G.op_histogram(prog).items():
             ops[k] += v
